@@ -78,7 +78,7 @@ def generate(seed, tier="quick"):
     else:
         fmt = {"kind": "absent"}
     return {"program": prog, "fmt": fmt, "flags": sub(seed, "flags").choice(["create,fix,trim", "create,fix", "create,fix,trim,update"]),
-            "old_external": sub(seed, "old").random() < 0.6, "inline": sub(seed, "inline").random() < 0.35, "max_points": 32 if tier == "quick" else 400}
+            "old_external": sub(seed, "old").random() < 0.6, "inline": sub(seed, "inline").random() < 0.35, "max_points": 32 if tier == "quick" else 400, "early_points": 4 if tier == "quick" else 60}
 
 
 def ast_equal(a, b):
@@ -142,6 +142,14 @@ def execute(case, ctx):
             continue
         for act in APPLICABLE.get(kind, ["crash_before"]):
             points.append((idx, kind, rel, act))
+    # crash points before session-finish (configure: prune / .gitignore; test phase: outsource writes '-new' files):
+    # the process dies before any rewriting, so every test file must be byte-identical and no reference may dangle
+    early = [(idx, kind, rel, act) for idx, kind, rel, phase in trace if phase != "finish" and kind in ("write_bytes", "write_text", "mkdir", "unlink", "glob", "exists")
+             for act in (["crash_before", "crash_after"] if kind in ("write_bytes", "write_text", "unlink", "mkdir") else ["crash_before"])]
+    if early:
+        erng = sub(len(early), "early" + str(len(trace)))
+        erng.shuffle(early)
+        early = sorted(early[: case.get("early_points", 4)])
     if len(points) > case.get("max_points", 40):
         keep = [p for p in points if p[1] in IMPORTANT]
         rest = [p for p in points if p[1] not in IMPORTANT]
@@ -152,19 +160,25 @@ def execute(case, ctx):
     ordinal = {}
     seen_kind = {}
     for idx, kind, rel, phase in trace:
-        if phase == "finish":
-            ordinal[idx] = seen_kind.get(kind, 0)
-            seen_kind[kind] = ordinal[idx] + 1
+        key = (kind, phase == "finish")
+        ordinal[idx] = seen_kind.get(key, 0)
+        seen_kind[key] = ordinal[idx] + 1
+    early_idx = {p[0] for p in early}
     if case.get("focus"):
-        fk, fo, fa, fdrv = case["focus"]
-        points = [p for p in points if fdrv == "plugin" and p[1] == fk and ordinal[p[0]] == fo and p[3] == fa]
+        fk, fo, fa, fdrv = case["focus"][:4]
+        fearly = bool(case["focus"][4]) if len(case["focus"]) > 4 else False
+        allp = [(i, k, r, a) for i, k, r, ph in trace if (ph != "finish") == fearly for a in (APPLICABLE.get(k, ["crash_before"]) if not fearly else ["crash_before", "crash_after"])]
+        points = [p for p in allp if fdrv == "plugin" and p[1] == fk and ordinal[p[0]] == fo and p[3] == fa]
+        early_idx = {p[0] for p in points} if fearly else set()
+    else:
+        points = sorted(early + points)
     twin_rb = sim.readback(ctx, twin)
     n_changed = sum(1 for n in names if twin.get(n) != pre.get(n))
     write_order = [rel for idx, kind, rel, phase in trace if kind in ("open_trunc", "open_write") or (kind in ("replace", "write_text", "write_bytes") and rel in names)]
     ctx.count("workloads_swept")
     ctx.count("fault_points", len(points))
     for idx, kind, rel, act in points:
-        cur[0] = [kind, ordinal[idx], act, "plugin"]
+        cur[0] = [kind, ordinal[idx], act, "plugin", idx in early_idx]
         post, res = sim.run_session(ctx, "plugin", pre, dict(spec, plan={str(idx): act}))
         fired = [f for f in res.get("fired", []) if f[0] == idx]
         if not fired:
@@ -173,21 +187,23 @@ def execute(case, ctx):
             continue
         ctx.count("fault_sessions")
         pos = write_order.index(rel) if rel in write_order else -1
-        out["abstract"].append(f"{kind}|finish|{act}|filepos={pos}/{n_changed}|{fmt_tag(fmt)}")
+        out["abstract"].append(f"{kind}|{'early' if idx in early_idx else 'finish'}|{act}|filepos={pos}/{n_changed}|{fmt_tag(fmt)}")
         crashed = res.get("status") == "crash"
         if act.startswith("crash") and not crashed:
             out["discards"]["crash-did-not-kill"] = out["discards"].get("crash-did-not-kill", 0) + 1
             continue
         where = f"fault {act} at seam #{idx} {kind} {rel} (fmt={fmt_tag(fmt)}, flags={flags}, {n_changed} file(s) in the change set)"
-        # ---- I1 right after the fault
-        for fn, why in check_I1(pre, post, twin, names):
+        if idx in early_idx:
+            ctx.count("early_phase_crash_sessions")
+        # ---- I1 right after the fault (a crash before session-finish: nothing may have been rewritten at all)
+        for fn, why in check_I1(pre, post, pre if idx in early_idx else twin, names):
             viol("I1-file-integrity", f"{why.split(' (')[0].split(',')[0]}:{act}@{kind}", f"{where}: {fn}: {why}\n--- content now\n{post.get(fn, b'')[:400].decode('utf-8', 'replace')}")
         # ---- restart: a plain next session on the surviving directory
         # (session start only: pytest_configure prunes '*-new.*'; the tests are not run, because re-running them would
         #  outsource the same data again and hide a reference whose file was just pruned)
         post2, res2 = sim.run_session(ctx, "plugin", post, {"flags": None, "fmt": {"kind": "black"}, "argv": ["--collect-only"]})
         ctx.count("restarts")
-        for fn, why in check_I1(pre, post2, twin, names):
+        for fn, why in check_I1(pre, post2, pre if idx in early_idx else twin, names):
             viol("I1-file-integrity", f"{why.split(' (')[0].split(',')[0]}:{act}@{kind}", f"{where}, after restart: {fn}: {why}")
         # ---- I2: after the restart's prune every external(...) resolves to exactly one stored file with matching content
         refs = [(fn, r) for fn in names if fn in post2 for r in c13.references(post2[fn].decode("utf-8", "replace"))]
@@ -232,10 +248,10 @@ def execute(case, ctx):
                 iseen[kind] = iord[idx] + 1
             ipoints = ipoints[: case.get("max_points", 40)]
             if case.get("focus"):
-                fk, fo, fa, fdrv = case["focus"]
+                fk, fo, fa, fdrv = case["focus"][:4]
                 ipoints = [p for p in ipoints if fdrv == "inline" and p[1] == fk and iord[p[0]] == fo and p[3] == fa]
             for idx, kind, rel, act in ipoints:
-                cur[0] = [kind, iord[idx], act, "inline"]
+                cur[0] = [kind, iord[idx], act, "inline", False]
                 ipost, r = sim.run_session(ctx, "inline", ipre, dict(spec, plan={str(idx): act}))
                 if not [f for f in r.get("fired", []) if f[0] == idx]:
                     continue
@@ -259,6 +275,7 @@ def execute(case, ctx):
 
 
 MIN_BUDGET = 40
+EVALUATIONS_COUNTER = "fault_sessions"  # evidence.evaluations = faulty sessions executed (each followed by a restart); runs = workloads swept
 
 
 def focus(case, violation):
